@@ -157,7 +157,7 @@ package ext
 // ---- C04: chunk encoder emits size, CRLF, data and (for a non-empty chunk) CRLF, in this order ----
 //@ ghost var wcStep int
 //@ func WriteChunk(w, b, withFlush) err
-//@   props C04
+//@   props C04, C11
 //@   abstract
 //@   noinline
 //@   ghostset-at-entry wcStep = 0
@@ -306,7 +306,7 @@ package ext
 // ---- C04: a chunked body is the reader's data, one chunk per non-empty read, then exactly one last chunk ----
 //@ ghost var wbcTerm bool
 //@ func WriteBodyChunked(w, r) err
-//@   props C04
+//@   props C04, C11
 //@   abstract
 //@   noinline
 //@   panics
@@ -322,7 +322,7 @@ package ext
 // WriteTrailer hands the serialised trailer block to the writer, once.
 //@ ghost var wtN int
 //@ func WriteTrailer(t, w) err
-//@   props C04
+//@   props C04, C11
 //@   abstract
 //@   noinline
 //@   modifies wtN
